@@ -56,7 +56,7 @@ type DTCase struct {
 
 var classOf = map[string]core.DatatypeClass{"fixed": core.DatatypeFixed, "float": core.DatatypeFloat, "string": core.DatatypeString,
 	"ref": core.DatatypeReference, "opaque": core.DatatypeOpaque, "vlen": core.DatatypeVarLen, "array": core.DatatypeArray,
-	"enum": core.DatatypeEnum, "compound": core.DatatypeCompound}
+	"enum": core.DatatypeEnum, "compound": core.DatatypeCompound, "time": core.DatatypeTime, "bitfield": core.DatatypeBitfield}
 
 type built struct {
 	enc    []byte                // encoded datatype message
@@ -108,6 +108,17 @@ func build(t T) (built, error) {
 			return built{}, fmt.Errorf("EncodeDatatypeMessage(%s size %d bits %#x): %w", t.K, t.Size, t.Bits, err)
 		}
 		return built{enc: enc, in: in, member: hdr(enc)}, nil
+	case "time", "bitfield":
+		// classes the message encoder does not produce on their own; as compound members they are carried in the
+		// pre-populated form (time: 2 property bytes = bit precision; bitfield: 4 = bit offset, precision)
+		props := []byte{byte(t.Size * 8), byte(t.Size * 8 >> 8)}
+		if t.K == "bitfield" {
+			props = []byte{0, 0, byte(t.Size * 8), byte(t.Size * 8 >> 8)}
+		}
+		in := &core.DatatypeMessage{Class: cls, Version: 1, Size: t.Size, ClassBitField: t.Bits, Properties: props}
+		enc := append(le(uint64(cls)|1<<4|uint64(t.Bits)<<8, 4), le(uint64(t.Size), 4)...)
+		enc = append(enc, props...)
+		return built{enc: enc, in: in, member: in}, nil
 	case "opaque":
 		if t.Tag == nil {
 			return built{}, fmt.Errorf("opaque without tag")
@@ -194,7 +205,7 @@ func build(t T) (built, error) {
 // (ParseDatatypeMessage: "take all remaining").
 func (t T) variable() bool {
 	switch t.K {
-	case "fixed", "float":
+	case "fixed", "float", "time", "bitfield":
 		return false
 	case "compound":
 		return t.Via == "v1"
@@ -528,6 +539,10 @@ func genLeaf(t *rapid.T, kinds []string, allowBasic bool) T {
 		x.Size = rapid.SampledFrom([]uint32{8, 12}).Draw(t, "size")
 		x.Bits = rapid.Uint32Range(0, 1).Draw(t, "reftype")
 		basic = false
+	case "time", "bitfield":
+		x.Size = rapid.SampledFrom([]uint32{1, 2, 4, 8}).Draw(t, "size")
+		x.Bits = rapid.Uint32Range(0, 1).Draw(t, "order")
+		basic = false
 	case "opaque":
 		x.Size = rapid.OneOf(rapid.Uint32Range(1, 64), rapid.SampledFrom([]uint32{1, 255, 256, 65536})).Draw(t, "size")
 		tag := genBlob(t, "tag", rapid.OneOf(rapid.IntRange(1, 40), rapid.SampledFrom([]int{1, 7, 8, 9, 15, 16, 17, 248, 255})))
@@ -599,12 +614,18 @@ func genCompound(t *rapid.T, depth int, last, wild bool, forceV3 bool) T {
 		maxN = 3
 	}
 	n := rapid.IntRange(1, maxN).Draw(t, "nmembers")
+	if depth == 0 && x.Via != "fields" && rapid.IntRange(0, 49).Draw(t, "manyMembers") == 0 {
+		n = rapid.SampledFrom([]int{255, 256, 257, 300, 513}).Draw(t, "nmany") // the member count no longer fits one byte
+	}
 	off := uint32(0)
 	for i := 0; i < n; i++ {
 		mlast := last && i == n-1
 		free := mlast || wild && rapid.IntRange(0, 2).Draw(t, "wildHere") == 0
 		var mt T
 		pick := rapid.IntRange(0, 9).Draw(t, "memberKind")
+		if n > 8 {
+			pick = 9
+		}
 		switch {
 		case pick <= 1 && depth < 2:
 			// nested compound: version 1 has no inline length rule in the parser, so it counts as variable
@@ -614,12 +635,16 @@ func genCompound(t *rapid.T, depth int, last, wild bool, forceV3 bool) T {
 		case free && pick <= 5:
 			mt = genLeaf(t, memberLeaves, true)
 		default:
-			mt = genLeaf(t, []string{"fixed", "float"}, true)
+			mt = genLeaf(t, []string{"fixed", "float", "fixed", "float", "time", "bitfield"}, true)
 		}
 		if mt.K == "string" && mt.Size > 1<<16 {
 			mt.Size = 32
 		}
-		m := M{Name: genBlob(t, "mname", rapid.OneOf(rapid.IntRange(1, 20), rapid.SampledFrom([]int{1, 6, 7, 8, 9, 15, 16, 17, 255, 256})), "", "", "utf8"), T: mt}
+		nameLen := rapid.OneOf(rapid.IntRange(1, 20), rapid.SampledFrom([]int{1, 6, 7, 8, 9, 15, 16, 17, 255, 256}))
+		if n > 8 {
+			nameLen = rapid.IntRange(1, 9)
+		}
+		m := M{Name: genBlob(t, "mname", nameLen, "", "", "utf8"), T: mt}
 		if x.Via != "fields" {
 			off += rapid.SampledFrom([]uint32{0, 0, 0, 1, 3, 4, 8}).Draw(t, "gap")
 		}
@@ -686,10 +711,12 @@ func classifyDT(c DTCase) (bool, []string) {
 			labels = append(labels, "members=1")
 		case len(t.Mem) <= 4:
 			labels = append(labels, "members=2-4")
-		default:
+		case len(t.Mem) <= 8:
 			labels = append(labels, "members=5-8")
+		default:
+			labels = append(labels, "members>=255")
 		}
-		for _, k := range []string{"string", "ref", "opaque", "array", "enum", "vlen"} {
+		for _, k := range []string{"string", "ref", "opaque", "array", "enum", "vlen", "time", "bitfield"} {
 			if t.hasKind(k) {
 				labels = append(labels, "member_"+k)
 			}
